@@ -18,7 +18,7 @@ pub static DEF: PropDef = PropDef {
     ],
     run,
     replay,
-    fuzz: None,
+    fuzz: Some(fuzz_one),
 };
 
 #[derive(Serialize, Deserialize, Debug, Clone)]
@@ -157,6 +157,11 @@ fn tokens_of(case: &Case) -> Vec<String> {
 
 /// Shared comparison: run find on `roots` + `tokens`, compare with the reference evaluation.
 fn check_tokens(ctx: &mut Ctx, roots: &[String], tokens: &[String], via_binary: bool) -> Outcome {
+    check_tokens_with(Some(ctx), roots, tokens, via_binary)
+}
+
+/// `ctx == None`: run find in process without a sandbox context (fuzz target)
+fn check_tokens_with(mut ctx: Option<&mut Ctx>, roots: &[String], tokens: &[String], via_binary: bool) -> Outcome {
     let parsed = match Parser::new(tokens).parse_all() {
         Ok(Some(e)) => e,
         Ok(None) => Ex::P(Prim::True),
@@ -186,15 +191,20 @@ fn check_tokens(ctx: &mut Ctx, roots: &[String], tokens: &[String], via_binary: 
     let mut args: Vec<&str> = roots.iter().map(|s| s.as_str()).collect();
     args.extend(tokens.iter().map(|s| s.as_str()));
     let cmdline = format!("find {}", args.iter().map(|a| format!("{a:?}")).collect::<Vec<_>>().join(" "));
-    let (status, stdout, stderr, panic) = if via_binary {
-        let o = ctx.run_bin(&crate::engine::proc::find_bin(), &args, &BinOpts::default());
-        {
+    let (status, stdout, stderr, panic) = match ctx.as_mut() {
+        None => {
+            let (st, out) = crate::engine::proc::find_plain(&args);
+            (st, out, vec![], None)
+        }
+        Some(ctx) if via_binary => {
+            let o = ctx.run_bin(&crate::engine::proc::find_bin(), &args, &BinOpts::default());
             let abn = if o.ordinary() { None } else { Some(format!("binary ended abnormally: code {:?} signal {:?}", o.code, o.signal)) };
             (o.code.unwrap_or(-1), o.stdout, o.stderr, abn)
         }
-    } else {
-        let o = ctx.find(&args);
-        (o.status, o.stdout, o.stderr, o.panic)
+        Some(ctx) => {
+            let o = ctx.find(&args);
+            (o.status, o.stdout, o.stderr, o.panic)
+        }
     };
     if let Some(p) = panic {
         return fail(format!("C01:panic:{}", p.split(": ").next().unwrap_or("?")), format!("{cmdline}\npanic: {p}"));
@@ -504,4 +514,32 @@ fn replay(w: &mut Worker, sub: &str, v: Value) -> Outcome {
         "tokens" => check_tok(&mut w.ctx, &decode(v)),
         _ => check(&mut w.ctx, &decode(v)),
     }
+}
+
+/// libFuzzer entry: the bytes are the choice stream of the expression/tree generator; the tree is
+/// rebuilt under a private tmpfs directory and find runs in process.  Oracle: the reference
+/// parser/evaluator/walker, exactly as in the random sub-run.
+pub fn fuzz_one(data: &[u8]) -> Option<crate::engine::Violation> {
+    static INIT: std::sync::Once = std::sync::Once::new();
+    INIT.call_once(|| {
+        let base = if std::path::Path::new("/dev/shm").is_dir() { "/dev/shm".to_string() } else { std::env::temp_dir().to_string_lossy().into_owned() };
+        let dir = format!("{base}/verif-fuzz-C01-{}", std::process::id());
+        let _ = std::fs::remove_dir_all(&dir);
+        std::fs::create_dir_all(&dir).expect("fuzz sandbox");
+        std::env::set_current_dir(&dir).expect("chdir fuzz sandbox");
+        std::env::set_var("PATH", crate::engine::proc::safe_path_dir());
+    });
+    if data.len() < 8 {
+        return None;
+    }
+    let words = crate::words_of(data);
+    let mut g = Gen::new(&words);
+    let case = gen_case(&mut g);
+    if std::fs::symlink_metadata("c").is_ok() {
+        crate::engine::proc::force_remove(std::path::Path::new("c"));
+    }
+    std::fs::create_dir("c").ok()?;
+    case.tree.build();
+    let tokens = tokens_of(&case);
+    crate::engine::violation_of(check_tokens_with(None, &case.roots, &tokens, false))
 }
